@@ -135,8 +135,18 @@ pub fn pop_text(op: &POp, isa: &Isa) -> String {
 
 pub fn rule_text(r: &Rule, isa: &Isa) -> String {
     let mut s = r.mnemonic.clone();
+    // v2: a third of the rules (chosen by a hash of the rule, not by the tape) are written WITHOUT the optional
+    // blank behind their commas (`ld a,{p1}`): a pattern without a blank still accepts one in the instruction, and
+    // blanks are not literal characters, so rules that differ only in this spelling compete on equal terms
+    let tight = crate::engine::gen_version() >= 2 && {
+        let mut key = r.mnemonic.clone();
+        for o in &r.ops {
+            key.push_str(&pop_text(&o.op, isa));
+        }
+        crate::engine::fnv(key.as_bytes()) % 3 == 0
+    };
     for (i, o) in r.ops.iter().enumerate() {
-        s.push_str(if i == 0 { " " } else { ", " });
+        s.push_str(if i == 0 { " " } else if tight { "," } else { ", " });
         s.push_str(o.wrap.open());
         s.push_str(&pop_text(&o.op, isa));
         s.push_str(o.wrap.close());
